@@ -93,6 +93,9 @@ inductive C where
 inductive S where
   /-- `if c: raise cls` -/
   | raise (cls : String) (c : C)
+  /-- an exception the statement raises by itself when `c` holds: a subscript `xs[i]` on a list of fixed length
+      (IndexError outside −n … n−1), a look-up `d[k]` in a dict with literal keys (KeyError) -/
+  | implicit (cls : String) (c : C)
   /-- `if c: …; return` (no exception inside) -/
   | ret (c : C)
   /-- a statement that changes the state named `what` (attribute assignment, `.append`, …) -/
@@ -153,6 +156,7 @@ def encC : C → List Tok
 
 def encS : S → List Tok
   | .raise cls c => ("raise", 0, cls) :: encC c
+  | .implicit cls c => ("implicit", 0, cls) :: encC c
   | .ret c => ("ret", 0, "") :: encC c
   | .mutate what => [("mut", 0, what)]
 
@@ -256,6 +260,7 @@ def decS (f : Nat) : List Tok → Option (S × List Tok)
   | (tag, _, s) :: r =>
       match tag with
       | "raise" => do let (c, r) ← decC f r; some (.raise s c, r)
+      | "implicit" => do let (c, r) ← decC f r; some (.implicit s c, r)
       | "ret" => do let (c, r) ← decC f r; some (.ret c, r)
       | "mut" => some (.mutate s, r)
       | _ => none
@@ -362,6 +367,7 @@ def evalC (env : Env) : C → Bool
 def runS (env : Env) : List S → List String → Option Out × List String
   | [], tr => (none, tr)
   | .raise cls c :: r, tr => if evalC env c then (some (.reject cls), tr) else runS env r tr
+  | .implicit cls c :: r, tr => if evalC env c then (some (.reject cls), tr) else runS env r tr
   | .ret c :: r, tr => if evalC env c then (some .accept, tr) else runS env r tr
   | .mutate what :: r, tr => runS env r (tr ++ [what])
 
@@ -376,6 +382,7 @@ def eachRun (env : Env) (v : String) (body : List S) : List Int → List String 
 def traceStmts (env : Env) : List Stmt → List String → Out × List String
   | [], tr => (.accept, tr)
   | .s (.raise cls c) :: r, tr => if evalC env c then (.reject cls, tr) else traceStmts env r tr
+  | .s (.implicit cls c) :: r, tr => if evalC env c then (.reject cls, tr) else traceStmts env r tr
   | .s (.ret c) :: r, tr => if evalC env c then (.accept, tr) else traceStmts env r tr
   | .s (.mutate what) :: r, tr => traceStmts env r (tr ++ [what])
   | .each v l body :: r, tr =>
@@ -397,6 +404,7 @@ def C.cmps : C → List (Op × E × E)
 
 def S.conds : S → List C
   | .raise _ c => [c]
+  | .implicit _ c => [c]
   | .ret c => [c]
   | .mutate _ => []
 
@@ -408,6 +416,25 @@ def Stmt.raises : Stmt → List (String × C)
   | .s (.raise cls c) => [(cls, c)]
   | .s _ => []
   | .each _ _ body => body.flatMap (fun x => match x with | .raise cls c => [(cls, c)] | _ => [])
+
+/-- the implicit guards of a statement, as (exception class, condition) -/
+def S.implicits : S → List (String × C)
+  | .implicit cls c => [(cls, c)]
+  | _ => []
+
+def Stmt.implicits : Stmt → List (String × C)
+  | .s x => x.implicits
+  | .each _ _ body => body.flatMap S.implicits
+
+def S.isImplicit : S → Bool
+  | .implicit _ _ => true
+  | _ => false
+
+/-- the statements without the implicit guards: what the author wrote as checks -/
+def explicitOnly : List Stmt → List Stmt
+  | [] => []
+  | .s x :: r => if x.isImplicit then explicitOnly r else .s x :: explicitOnly r
+  | .each v l body :: r => .each v l (body.filter (fun x => !x.isImplicit)) :: explicitOnly r
 
 def S.muts : S → List String
   | .mutate w => [w]
